@@ -120,7 +120,8 @@ def handle : List String → String
   | "decode" :: m :: v :: ka :: il :: rest =>
     match decExchange? (m :: v :: rest) with
     | some (req, σ, w, dl) =>
-      encResult (decode (replayDecoder dl) { keepAlive := ka == "T", ignoreLength := il == "T" } req σ w)
+      let e : Ending := if rest.head? == some "R" then .reset else if w.eof then .closed else .stillOpen
+      encResult (decodeE (replayDecoder dl) { keepAlive := ka == "T", ignoreLength := il == "T" } req σ w.bytes e)
     | none => "bad-arg"
   | "session" :: ka :: il :: rest =>
     match (chunk6 rest).mapM decExchange? with
